@@ -235,7 +235,7 @@ var c15LayoutNotes = []string{
 
 func c15WholeEvaluate(c *c15Checker, wc c15WholeCase, seedInfo map[string]any) {
 	res := c.res
-	replay := map[string]any{"kind": "whole", "body": hxs(wc.file.lines)}
+	replay := map[string]any{"kind": "whole", "body": c15hxs(wc.file.lines)}
 	for k, v := range seedInfo {
 		replay[k] = v
 	}
